@@ -57,6 +57,81 @@ def make_account(rng, wc, account_id, extra_currencies=False):
     return RCell(bits, refs)
 
 
+def make_state_init(rng):
+    """_ split_depth:(Maybe (## 5)) special:(Maybe TickTock) code:(Maybe ^Cell) data:(Maybe ^Cell) library:(HashmapE 256 SimpleLib)"""
+    bits = ''
+    refs = []
+    if rng.random() < 0.3:
+        bits += '1' + enc_uint(rng.getrandbits(5), 5)
+    else:
+        bits += '0'
+    if rng.random() < 0.3:
+        bits += '1' + rng.choice(['00', '01', '10', '11'])
+    else:
+        bits += '0'
+    for _ in range(3):
+        if rng.random() < 0.6:
+            bits += '1'
+            refs.append(RCell(rbits(rng, rng.choice([0, 8, 77, 500])), [RCell(rbits(rng, 16))] if rng.random() < 0.3 else []))
+        else:
+            bits += '0'
+    return RCell(bits, refs)
+
+
+def make_message(rng, extra_currencies=True):
+    """message$_ info:CommonMsgInfo init:(Maybe (Either StateInit ^StateInit)) body:(Either X ^X) - every header kind,
+    inline and referenced state-init and body, optional extra currencies, anycast on internal addresses."""
+    def addr_int():
+        any_ = (rng.randint(1, 30),) if rng.random() < 0.2 else None
+        if any_:
+            any_ = (any_[0], rng.getrandbits(any_[0]))
+        return enc_addr_std(rng.choice([0, -1, rng.randint(-128, 127)]), bytes(rng.getrandbits(8) for _ in range(32)), any_)
+
+    def addr_ext():
+        if rng.random() < 0.5:
+            return '00'
+        n = rng.choice([1, 8, 64, 256, 511])
+        return '01' + enc_uint(n, 9) + enc_uint(rng.getrandbits(n), n)
+    refs = []
+    kind = rng.choice(['int', 'int', 'ext_in', 'ext_out'])
+    if kind == 'int':
+        bits = '0' + rbits(rng, 3) + addr_int() + addr_int()
+        if extra_currencies and rng.random() < 0.3:
+            cb, crefs = currency(rng.getrandbits(rng.choice([0, 8, 60, 120])), _rand_extra(rng))
+            bits += cb
+            refs += list(crefs)
+        else:
+            bits += currency(rng.getrandbits(rng.choice([0, 8, 60, 120])))
+        bits += enc_coins(rng.getrandbits(rng.choice([0, 16, 64]))) + enc_coins(rng.getrandbits(rng.choice([0, 16, 64])))
+        bits += enc_uint(rng.getrandbits(64), 64) + enc_uint(rng.getrandbits(32), 32)
+    elif kind == 'ext_in':
+        bits = '10' + addr_ext() + addr_int() + enc_coins(rng.getrandbits(rng.choice([0, 16, 64])))
+    else:
+        bits = '11' + addr_int() + addr_ext() + enc_uint(rng.getrandbits(64), 64) + enc_uint(rng.getrandbits(32), 32)
+    r = rng.random()
+    if r < 0.5:
+        bits += '0'
+    else:
+        si = make_state_init(rng)
+        if r < 0.75 and len(bits) + 2 + len(si.bits) + 1 <= 1023 and len(refs) + len(si.refs) <= 3:
+            bits += '10' + si.bits
+            refs += list(si.refs)
+        else:
+            bits += '11'
+            refs.append(si)
+    room = 1023 - len(bits) - 1
+    body = RCell(rbits(rng, rng.choice([0, 1, 32, 300, 700, 1023])), [RCell(rbits(rng, 8))] * rng.choice([0, 0, 1, 2]))
+    if len(body.bits) <= room and len(refs) + len(body.refs) <= 4 and rng.random() < 0.7:
+        bits += '0' + body.bits
+        refs += list(body.refs)
+    elif len(refs) < 4:
+        bits += '1'
+        refs.append(body)
+    else:
+        bits += '0'
+    return RCell(bits, refs)
+
+
 def make_shard_state(rng, accounts, wc=0, extra_currencies=False):
     """accounts: {int key: Account RCell}.  Returns the ShardStateUnsplit root.
     extra_currencies: some leaves carry a non-empty ExtraCurrencyCollection in their DepthBalanceInfo, so the leaf cell
